@@ -1,10 +1,284 @@
-(* C12 - PROXY protocol: received headers stripped and honoured, sent headers exact. *)
-From Coq Require Import String List ZArith NArith Bool.
+(* C12 - PROXY protocol: received headers stripped and honoured, sent headers exact.
+   Property theorems only; every proof is [exact <lemma>] (lemmas: proofs/ProxyProtoProofs.v), or a
+   [vm_compute] witness for Examples / refutations.
+
+   Reading guide.  [encode_v1]/[encode_v2] are the HAProxy specification's encoders; [parse] is the
+   accepted language of mastercactapus/proxyprotocol v0.0.4; [handle] is Handler.Handle of
+   modules/l4proxyprotocol as the source has it now ([handle_with false] = before commit cb6bc63);
+   [tidy_rules]/[new_conn] its allow list; [upstream_bytes] what dialPeers + proxy make an
+   upstream receive.  Streams are byte lists (segmentation: C01). *)
+From Coq Require Import String List ZArith NArith Bool Permutation.
 From Coq.Strings Require Import Byte.
+From L4 Require Import Hex.
+From L4.gen Require Import Consts Shape.
 From L4.model Require Import GoBase ProxyProto.
+From L4.proofs Require Import ProxyProtoProofs.
 Import ListNotations.
 Open Scope N_scope.
 
-Example C12_model_runs : parse (encode_v1 V1Unknown) = POk {| h_version := 1; h_cmd := 1; h_src := Some (ATcp IPnil 0); h_dst := Some (ATcp IPnil 0) |} [].
+(* ------------------------------------------------------------------ codec round trips *)
+
+(* v1: parsing the specification's encoding of ANY well-formed header followed by ANY payload
+   returns that header and leaves exactly the payload.  UNKNOWN and TCP4 unconditionally ... *)
+Theorem C12_parse_encode_v1_unknown_tcp4 : forall render6 h payload,
+  (match h with V1Tcp6 _ _ _ _ => False | _ => True end) -> v1_wf h ->
+  parse (encode_v1_with render6 h ++ payload) = POk (v1_hdr h) payload.
+Proof. exact parse_encode_v1_no6. Qed.
+(* ... and TCP6 for every IPv6 text renderer whose output net.ParseIP reads back ... *)
+Theorem C12_parse_encode_v1 : forall render6 h payload, ip6_text_ok render6 -> v1_wf h ->
+  parse (encode_v1_with render6 h ++ payload) = POk (v1_hdr h) payload.
+Proof. exact parse_encode_v1_with. Qed.
+
+(* the premise holds for the model's renderer, i.e. net/netip's RFC 5952 text with "::" compression
+   read back by netip.parseIPv6 - proved, for all 2^128 addresses *)
+Theorem C12_ip6_text_roundtrip : ip6_text_ok render_ip6.
+Proof. exact render_ip6_text_ok. Qed.
+(* hence: every well-formed v1 header (UNKNOWN, TCP4, TCP6), every payload *)
+Theorem C12_parse_encode_v1_all : forall h payload, v1_wf h ->
+  parse (encode_v1 h ++ payload) = POk (v1_hdr h) payload.
+Proof. exact parse_encode_v1. Qed.
+
+(* v2 without TLVs: every command, family, transport, address, port, unix path *)
+Theorem C12_parse_encode_v2 : forall h payload, v2_wf h -> s_tlvs h = [] ->
+  parse (encode_v2 h ++ payload) = POk (v2_hdr h) payload.
+Proof. exact parse_encode_v2. Qed.
+
+(* the library rejects every v2 header that carries TLVs: outside the property's premise *)
+Theorem C12_v2_tlv_rejected : forall h payload, v2_wf h -> s_tlvs h <> [] ->
+  N.of_nat (length (block_bytes (s_block h) ++ tlvs_bytes (s_tlvs h))) < 65536 ->
+  parse (encode_v2 h ++ payload) = PBad.
+Proof. exact v2_tlv_rejected. Qed.
+
+(* numbers as decimal text (ports, IPv4 octets) and IPv4 dotted text read back *)
+Theorem C12_decimal_roundtrip : forall n, dec_val (dec n) = n.
+Proof. exact dec_val_dec. Qed.
+Theorem C12_ipv4_text_roundtrip : forall a, a < two32 -> parse_ip (render_ip4 a) = Some (IP4 a).
+Proof. exact parse_ip_render4. Qed.
+
+(* ------------------------------------------------------------------ allow list *)
+
+(* sort.Slice is only known to permute: for EVERY permutation-producing sort, sorting and the
+   in-place compaction of tidyRules preserve the SET of configured subnets ... *)
+Theorem C12_tidy_preserves_rule_set : forall sort, (forall l, Permutation (sort l) l) ->
+  forall rules n, In n (map r_net (tidy_rules_with sort rules)) <-> In n (map r_net rules).
+Proof. exact tidy_nets. Qed.
+(* ... so a peer is PROXY-parsed iff no list is configured or some configured CIDR contains it *)
+Theorem C12_allow_iff_contained_any_sort : forall sort, (forall l, Permutation (sort l) l) ->
+  forall timeout rules remote,
+  new_conn timeout (tidy_rules_with sort rules) remote <> None <-> peer_allowed rules remote.
+Proof. exact allow_iff_contained_with. Qed.
+Theorem C12_allow_iff_contained : forall timeout rules remote,
+  new_conn timeout (tidy_rules rules) remote <> None <-> peer_allowed rules remote.
+Proof. exact (allow_iff_contained_with isort isort_perm). Qed.
+(* CIDR containment over 32/128-bit numbers is the address range of the masked base *)
+Theorem C12_cidr_is_range : forall bits ones base a, ones <= bits -> base mod 2 ^ (bits - ones) = 0 ->
+  prefix_eq bits ones base a = true <-> base <= a < base + 2 ^ (bits - ones).
+Proof. exact prefix_eq_range. Qed.
+
+(* peers outside the allow list are passed through untouched: same addresses, same replacer
+   entries, same stream, no PROXY variable *)
+Theorem C12_outside_allow_list_untouched : forall timeout rules cv,
+  ~ peer_allowed rules (c_remote cv) -> handle timeout (tidy_rules rules) cv = HPass cv.
+Proof. exact outside_allow_list_untouched. Qed.
+
+(* ------------------------------------------------------------------ received headers: stripped and honoured *)
+
+(* an allowed peer sending a v1 / v2 header: exactly the header bytes are removed, the next
+   handler sees the declared addresses (or the real ones where the header declares none) *)
+Theorem C12_received_v1_stripped_and_honoured : forall render6 timeout rules cv h payload,
+  ip6_text_ok render6 -> v1_wf h ->
+  new_conn timeout rules (c_remote cv) <> None -> c_stream cv = encode_v1_with render6 h ++ payload ->
+  handle timeout rules cv = HNext (accepted_view l4proxyprotocol_handle_sets_placeholders cv (v1_hdr h) payload).
+Proof. exact (fun r => received_v1 r _). Qed.
+Theorem C12_received_v1_unknown_tcp4_stripped_and_honoured : forall render6 timeout rules cv h payload,
+  (match h with V1Tcp6 _ _ _ _ => False | _ => True end) -> v1_wf h ->
+  new_conn timeout rules (c_remote cv) <> None -> c_stream cv = encode_v1_with render6 h ++ payload ->
+  handle timeout rules cv = HNext (accepted_view l4proxyprotocol_handle_sets_placeholders cv (v1_hdr h) payload).
+Proof. exact (fun r => received_v1_no6 r _). Qed.
+Theorem C12_received_v1_all_stripped_and_honoured : forall timeout rules cv h payload, v1_wf h ->
+  new_conn timeout rules (c_remote cv) <> None -> c_stream cv = encode_v1 h ++ payload ->
+  handle timeout rules cv = HNext (accepted_view l4proxyprotocol_handle_sets_placeholders cv (v1_hdr h) payload).
+Proof. exact received_v1_all. Qed.
+Theorem C12_received_v2_stripped_and_honoured : forall timeout rules cv h payload,
+  v2_wf h -> s_tlvs h = [] ->
+  new_conn timeout rules (c_remote cv) <> None -> c_stream cv = encode_v2 h ++ payload ->
+  handle timeout rules cv = HNext (accepted_view l4proxyprotocol_handle_sets_placeholders cv (v2_hdr h) payload).
+Proof. exact (received_v2 _). Qed.
+(* a v2 header with TLVs is not accepted: the handler fails, nothing is passed on *)
+Theorem C12_received_v2_tlv_dropped : forall timeout rules cv h payload,
+  v2_wf h -> s_tlvs h <> [] -> N.of_nat (length (block_bytes (s_block h) ++ tlvs_bytes (s_tlvs h))) < 65536 ->
+  new_conn timeout rules (c_remote cv) <> None -> c_stream cv = encode_v2 h ++ payload ->
+  handle timeout rules cv = HError.
+Proof. exact (received_v2_tlv _). Qed.
+
+(* placeholders: after an accepted header the replacer entries l4.conn.remote_addr /
+   l4.conn.local_addr hold what the connection now reports (= the header's addresses by the
+   theorems above).  Depends on the fact gen/Shape.v reads from handler.go. *)
+Theorem C12_placeholders_follow_header : forall timeout rules cv v,
+  handle timeout rules cv = HNext v -> c_repl_remote v = c_remote v /\ c_repl_local v = c_local v.
+Proof. exact placeholders_follow_header. Qed.
+(* the handler as it was before commit cb6bc63 (no replacer update) violates it:
+   peer 10.1.2.3:51000 sends "PROXY TCP4 1.2.3.4 5.6.7.8 1000 2000\r\n" *)
+Theorem C12_placeholders_without_update_refuted : exists cv v,
+  handle_with false 0 [] cv = HNext v /\ c_remote v = ATcp (IP4 16909060) 1000 /\ c_repl_remote v = ATcp (IP4 167838211) 51000.
+Proof.
+  exists (wrap_connection (ATcp (IP4 167838211) 51000) (ATcp (IP4 2130706433) 4433)
+            (encode_v1 (V1Tcp4 16909060 84281096 1000 2000) ++ txt "hello")).
+  eexists. vm_compute. repeat split.
+Qed.
+
+(* v2 LOCAL and v2 UNSPEC declare nothing: the real addresses stay in force ... *)
+Example C12_v2_local_keeps_real_addresses :
+  handle 0 [] (wrap_connection (ATcp (IP4 167838211) 51000) (ATcp (IP4 2130706433) 4433)
+                 (encode_v2 {| s_local := true; s_proto := 0; s_block := V2Unspec; s_tlvs := [] |} ++ txt "x"))
+  = HNext {| c_remote := ATcp (IP4 167838211) 51000; c_local := ATcp (IP4 2130706433) 4433;
+             c_repl_remote := ATcp (IP4 167838211) 51000; c_repl_local := ATcp (IP4 2130706433) 4433;
+             c_stream := txt "x"; c_ppvar := Some (ATcp (IP4 167838211) 51000, ATcp (IP4 2130706433) 4433) |}.
 Proof. vm_compute. reflexivity. Qed.
-Print Assumptions C12_model_runs.
+(* ... but after v1 "PROXY UNKNOWN" the handler reports a fabricated address with a nil IP and
+   port 0 instead of the real peer (recorded finding C12:addr:v1-unknown-*-not-real-peer) *)
+Theorem C12_v1_unknown_keeps_real_addresses_refuted : exists cv v,
+  handle 0 [] cv = HNext v /\ c_stream cv = encode_v1 V1Unknown ++ txt "x" /\
+  c_remote cv = ATcp (IP4 167838211) 51000 /\ c_remote v = ATcp IPnil 0 /\ c_local v = ATcp IPnil 0.
+Proof.
+  exists (wrap_connection (ATcp (IP4 167838211) 51000) (ATcp (IP4 2130706433) 4433) (encode_v1 V1Unknown ++ txt "x")).
+  eexists. vm_compute. repeat split.
+Qed.
+
+(* ------------------------------------------------------------------ sent headers *)
+
+(* v1: what HeaderV1.WriteTo emits for the effective addresses IS the specification's encoding:
+   TCP4 / TCP6 when both are TCP of one family, UNKNOWN otherwise *)
+Theorem C12_sent_v1_is_spec_encoding : forall si sp di dp, ip_ok si -> ip_ok di -> sp < two16 -> dp < two16 ->
+  lib_write_v1 si sp di dp =
+    encode_v1 (if is4 si && is4 di then V1Tcp4 (as4 si) (as4 di) sp dp
+               else if negb (is4 si) && negb (is4 di) && is16 si && is16 di then V1Tcp6 (as16 si) (as16 di) sp dp
+               else V1Unknown).
+Proof. exact lib_write_v1_spec. Qed.
+(* v2: likewise for TCP and UDP pairs (INET / INET6, UNSPEC for mixed families) *)
+Theorem C12_sent_v2_is_spec_encoding : forall proto si sp di dp, ip_ok si -> ip_ok di -> (proto = 1 \/ proto = 2) ->
+  let mk := if proto =? 1 then ATcp else AUdp in
+  lib_write_v2 1 (Some (mk si sp)) (Some (mk di dp)) =
+    Some (encode_v2 {| s_local := false; s_proto := proto; s_tlvs := [];
+                       s_block := if is4 si && is4 di then V2Inet (as4 si) (as4 di) (sp mod two16) (dp mod two16)
+                                  else if negb (is4 si) && negb (is4 di) && is16 si && is16 di
+                                       then V2Inet6 (as16 si) (as16 di) (sp mod two16) (dp mod two16)
+                                       else V2Unspec |}).
+Proof. exact lib_write_v2_inet. Qed.
+
+(* whatever the effective addresses are, a v1 upstream receives ONE header the receiver accepts,
+   immediately followed by exactly the client's stream *)
+Theorem C12_sent_v1_one_header_then_stream : forall cv r l,
+  effective cv = (r, l) ->
+  (match r with ATcp i p => ip_ok i /\ p < two16 | _ => True end) ->
+  (match l with ATcp i p => ip_ok i /\ p < two16 | _ => True end) ->
+  exists hs h, v1_wf hs /\ upstream_bytes 1 cv = Some (encode_v1 hs ++ c_stream cv) /\
+    parse (encode_v1 hs ++ c_stream cv) = POk h (c_stream cv).
+Proof. exact sent_stream_exact_v1_all. Qed.
+
+(* ------------------------------------------------------------------ composition sender -> receiver *)
+
+(* what dialPeers emits (v1), fed to the receiving handler of an allowed peer, yields the client's
+   effective addresses (those it received by PROXY protocol if any: [effective]), the client's
+   stream, and placeholders that agree - IPv4 and IPv6 *)
+Theorem C12_sender_receiver_roundtrip_v1 : forall cv ri rp li lp timeout rules cv2,
+  effective cv = (ATcp ri rp, ATcp li lp) -> ip_ok ri -> ip_ok li -> rp < two16 -> lp < two16 -> same_family ri li ->
+  new_conn timeout rules (c_remote cv2) <> None ->
+  upstream_bytes 1 cv = Some (c_stream cv2) ->
+  exists v, handle timeout rules cv2 = HNext v /\
+    c_remote v = ATcp (norm_ip ri) rp /\ c_local v = ATcp (norm_ip li) lp /\ c_stream v = c_stream cv /\
+    c_repl_remote v = c_remote v /\ c_repl_local v = c_local v.
+Proof. exact roundtrip_v1_all. Qed.
+(* v2: TCP and UDP, IPv4 and IPv6, unconditionally *)
+Theorem C12_sender_receiver_roundtrip_v2 : forall cv proto ri rp li lp timeout rules cv2,
+  (proto = 1 \/ proto = 2) ->
+  let mk := if proto =? 1 then ATcp else AUdp in
+  effective cv = (mk ri rp, mk li lp) -> ip_ok ri -> ip_ok li -> rp < two16 -> lp < two16 -> same_family ri li ->
+  new_conn timeout rules (c_remote cv2) <> None ->
+  upstream_bytes 2 cv = Some (c_stream cv2) ->
+  exists v, handle timeout rules cv2 = HNext v /\
+    c_remote v = mk (norm_ip ri) rp /\ c_local v = mk (norm_ip li) lp /\ c_stream v = c_stream cv /\
+    c_repl_remote v = c_remote v /\ c_repl_local v = c_local v.
+Proof. exact roundtrip_v2. Qed.
+
+(* ------------------------------------------------------------------ ties to the source, non-vacuity *)
+
+(* the matcher's prefixes in /repo are the signatures the model parses *)
+Example C12_consts_ok :
+  l4proxyprotocol_headerV2Prefix = sig_v2 /\ l4proxyprotocol_headerV1Prefix = txt "PROXY" /\
+  l4proxyprotocol_handle_sets_placeholders = true /\ l4proxy_dial_uses_getconn = true /\
+  l4proxy_dial_header_before_append = true.
+Proof. vm_compute. repeat split. Qed.
+
+(* the IPv6 text premise holds on addresses of every compression shape (leading, trailing,
+   inner, two equal runs, a single zero group, none, IPv4-mapped, all ones, all zeros) *)
+Example C12_ip6_text_examples :
+  forallb (fun a => match parse_ip (render_ip6 a) with
+                    | Some i => ip_eqb i (IP6 a) && (length (render_ip6 a) <=? 39)%nat
+                                && forallb (fun b => negb (is_space b)) (render_ip6 a)
+                    | None => false end)
+    [0; 1; 2 ^ 112; 2 ^ 127 + 1; 2 ^ 128 - 1; 2 ^ 112 + 2 ^ 64 + 5; 2 ^ 112 + 2 ^ 80 + 2 ^ 32 + 5;
+     2 ^ 96 + 2 ^ 16; 281470698652420; 42540766411282592856903984951653826561;
+     2 ^ 112 + 2 ^ 96 + 2 ^ 80 + 2 ^ 64 + 2 ^ 48 + 2 ^ 32 + 2 ^ 16; 2 ^ 16; 65535 * 2 ^ 112 + 43981;
+     338288524927261089654018896841347694593; 2 ^ 48 + 1; 2 ^ 64; 2 ^ 80 + 2 ^ 16 + 1] = true.
+Proof. vm_compute. reflexivity. Qed.
+
+(* the hypotheses of the round-trip theorems are satisfiable, and the theorems say something:
+   a concrete v1 TCP6 header with payload, a v2 UDP6 header, a TLV header *)
+Example C12_example_v1_tcp6 :
+  parse (encode_v1 (V1Tcp6 42540766411282592856903984951653826561 1 40000 8443) ++ txt "payload")
+  = POk {| h_version := 1; h_cmd := 1;
+           h_src := Some (ATcp (IP6 42540766411282592856903984951653826561) 40000);
+           h_dst := Some (ATcp (IP6 1) 8443) |} (txt "payload").
+Proof. vm_compute. reflexivity. Qed.
+Example C12_example_v2_udp6 :
+  v2_wf {| s_local := false; s_proto := 2; s_block := V2Inet6 1 0 0 9; s_tlvs := [] |} /\
+  parse (encode_v2 {| s_local := false; s_proto := 2; s_block := V2Inet6 1 0 0 9; s_tlvs := [] |} ++ txt "payload")
+  = POk {| h_version := 2; h_cmd := 1; h_src := Some (AUdp (IP6 1) 0); h_dst := Some (AUdp (IP6 0) 9) |} (txt "payload").
+Proof. vm_compute. repeat split; discriminate. Qed.
+Example C12_example_allow_list :
+  let rules := map (fun n => {| r_net := n; r_timeout := 0%Z |})
+                 [ {| n_bits := 32; n_base := 167772160; n_ones := 8 |};      (* 10.0.0.0/8 *)
+                   {| n_bits := 32; n_base := 167838208; n_ones := 24 |};     (* 10.1.2.0/24 *)
+                   {| n_bits := 32; n_base := 167772160; n_ones := 8 |};      (* duplicate *)
+                   {| n_bits := 128; n_base := 1; n_ones := 128 |} ] in       (* ::1/128 *)
+  length (tidy_rules rules) = 4%nat /\
+  map (fun r => n_ones (r_net r)) (tidy_rules rules) = [128; 24; 8; 8] /\
+  new_conn 0 (tidy_rules rules) (ATcp (IP4 167838211) 1) = Some 0%Z /\   (* 10.1.2.3 *)
+  new_conn 0 (tidy_rules rules) (ATcp (IP4 184549377) 1) = None /\       (* 11.0.0.1 *)
+  new_conn 0 (tidy_rules rules) (ATcp (IP6 1) 1) = Some 0%Z /\
+  new_conn 0 (tidy_rules rules) (AUnix false []) = None.
+Proof. vm_compute. repeat split. Qed.
+
+Print Assumptions C12_parse_encode_v1_unknown_tcp4.
+Print Assumptions C12_parse_encode_v1.
+Print Assumptions C12_ip6_text_roundtrip.
+Print Assumptions C12_parse_encode_v1_all.
+Print Assumptions C12_parse_encode_v2.
+Print Assumptions C12_v2_tlv_rejected.
+Print Assumptions C12_decimal_roundtrip.
+Print Assumptions C12_ipv4_text_roundtrip.
+Print Assumptions C12_tidy_preserves_rule_set.
+Print Assumptions C12_allow_iff_contained_any_sort.
+Print Assumptions C12_allow_iff_contained.
+Print Assumptions C12_cidr_is_range.
+Print Assumptions C12_outside_allow_list_untouched.
+Print Assumptions C12_received_v1_stripped_and_honoured.
+Print Assumptions C12_received_v1_unknown_tcp4_stripped_and_honoured.
+Print Assumptions C12_received_v1_all_stripped_and_honoured.
+Print Assumptions C12_received_v2_stripped_and_honoured.
+Print Assumptions C12_received_v2_tlv_dropped.
+Print Assumptions C12_placeholders_follow_header.
+Print Assumptions C12_placeholders_without_update_refuted.
+Print Assumptions C12_v2_local_keeps_real_addresses.
+Print Assumptions C12_v1_unknown_keeps_real_addresses_refuted.
+Print Assumptions C12_sent_v1_is_spec_encoding.
+Print Assumptions C12_sent_v2_is_spec_encoding.
+Print Assumptions C12_sent_v1_one_header_then_stream.
+Print Assumptions C12_sender_receiver_roundtrip_v1.
+Print Assumptions C12_sender_receiver_roundtrip_v2.
+Print Assumptions C12_consts_ok.
+Print Assumptions C12_ip6_text_examples.
+Print Assumptions C12_example_v1_tcp6.
+Print Assumptions C12_example_v2_udp6.
+Print Assumptions C12_example_allow_list.
